@@ -30,9 +30,18 @@ def check(spec: dict) -> core.CaseResult:
     return dagprop.result(obs, findings, nt, labels, hang_is_violation=True, prop='C11')
 
 
+def judge_obs(case: dict, obs) -> core.CaseResult:
+    ex = oracles.expect_for(case, obs)
+    findings = oracles.c11_terminates(case, obs, ex)
+    if obs.timeout:
+        findings.append(core.Finding('C11:run-did-not-terminate', oracles.exc_text(obs.exc)))
+    failing = any(s == 'failed' for s in ex.status.values())
+    return core.CaseResult(findings=findings, nontrivial=failing or case['lab']['max_workers'] == 1, labels=('exhaustive-small',), summary=None, stop_search=obs.timeout)
+
+
 def plan(tier: str) -> list[dict]:
-    return dagprop.std_plan(tier, controlled=(9, 150, 2500), serial=(1, 60, 1000), fork=(2, 20, 400), spawn=(1, 5, 80),
-                            gated_fork=(2, 12, 300), gated_spawn=(1, 3, 40))
+    return list(dagprop.std_plan(tier, controlled=(9, 150, 2500), serial=(1, 60, 1000), fork=(2, 20, 400), spawn=(1, 5, 80),
+                            gated_fork=(2, 12, 300), gated_spawn=(1, 3, 40))) + dagprop.exhaustive_jobs(tier, 4)
 
 
 def strategy(eng: str, gated: bool, seed: int):
@@ -55,6 +64,9 @@ def strategy(eng: str, gated: bool, seed: int):
 
 
 def run_job(rec: core.Recorder, job: dict, seed: int) -> None:
+    if job['engine'] == 'exhaustive-small':
+        dagprop.run_exhaustive_job(rec, job, judge_obs, failing=True, cached=False)
+        return
     eng, gated = dagprop.backend_of(job['engine'])
     core.run_hypothesis(rec, job['engine'], strategy(eng, gated, seed), check, max_examples=job['n'], seed=seed,
                         shrink=(eng == 'controlled' or rec.tier == 'thorough'))
